@@ -131,6 +131,9 @@ float strtof(const char *nptr, char **endptr)
   }
   if (nptr == g_tag_ptr && g_tag_kind == TAG_FP) {
     if (endptr) *endptr = (char *)nptr + g_tag_len;
+    /* glibc reports ERANGE for subnormal (inexact) results although the value is fine */
+    if (g_tag_fp == g_tag_fp && g_tag_fp != 0.0 && g_tag_fp > -1.17549435e-38 && g_tag_fp < 1.17549435e-38 && (nondet_size_t() % 2))
+      g_errno = ERANGE;
     /* FLT_DECIMAL_DIG significant digits identify a float (IEEE 754) */
     if (g_tag_prec >= 9 && (g_tag_fp != g_tag_fp || (double)(float)g_tag_fp == g_tag_fp))
       return (float)g_tag_fp;
@@ -150,6 +153,9 @@ double strtod(const char *nptr, char **endptr)
   }
   if (nptr == g_tag_ptr && g_tag_kind == TAG_FP) {
     if (endptr) *endptr = (char *)nptr + g_tag_len;
+    /* glibc reports ERANGE for subnormal (inexact) results although the value is fine */
+    if (g_tag_fp == g_tag_fp && g_tag_fp != 0.0 && g_tag_fp > -2.2250738585072014e-308 && g_tag_fp < 2.2250738585072014e-308 && (nondet_size_t() % 2))
+      g_errno = ERANGE;
     /* DBL_DECIMAL_DIG significant digits identify a double */
     if (g_tag_prec >= 17)
       return g_tag_fp;
